@@ -29,7 +29,6 @@ var notApplicable = []struct{ ID, Reason string }{
 
 // notYet: simulation targets by DESIGN.md whose harness is not built (yet); listed so MANIFEST says why they are unclaimed.
 var notYet = []struct{ ID, Reason string }{
-	{"C21", "simulation target by DESIGN.md §2/§5, but its harness is not built yet (work in progress): not claimed until the check exists"},
 }
 
 func writeManifest() error {
